@@ -326,17 +326,16 @@ def lookup (cfg : Config) (net : Net) (q : Query) (zone : Name) (pool : Pool) (s
 
 /-! ## `ns_pool_for_name` -/
 
-/-- `Name::trim_to` (never fails on names the Rust type can hold: `C04.trimTo_bounded`) -/
+/-- `Name::trim_to`: the last `k` labels, fully qualified.  (`Name::trim_to` goes through
+`from_labels(..).unwrap()`, which cannot fail on a name the Rust type can hold; `Proofs/C19.lean`,
+`trimTo_eq`, shows this total function is the model of C04 on every such name.) -/
 def trim (n : Name) (k : Nat) : Name :=
-  match n.trimTo k with
-  | .ok r => r
-  | _ => n
+  if k > n.labels.length then n
+  else { labels := n.labels.drop (n.labels.length - k), fqdn := true }
 
 /-- `Name::base_name` -/
 def base (n : Name) : Name :=
-  match n.baseName with
-  | .ok r => r
-  | _ => n
+  if n.labels.length > 0 then trim n (n.labels.length - 1) else n
 
 /-- the zones `ns_pool_for_name` walks: `trim_to(1) … trim_to(num_labels)` -/
 def zonesOf (n : Name) : List Name := (List.range n.numLabels).map fun i => trim n (i + 1)
